@@ -251,6 +251,7 @@ package hermes
 //@   ensures[C01] bottom: g.SICKER + g.CAPSUM == old(g.SICKER) + old(g.CAPSUM) + g.Q1[g.OUTN]*10 - l.GWAUF*10*wdt
 //@   ensures[C01] uptake: forall(k, 0, g.N, g.TP[k] == ite(subd == 1, clampTP(k), old(g.TP[k])))
 //@   ensures[C01] surface: unchanged(g.FLUSS0, l.GWAUF)
+//@   ensures[C01,C02] drainonly: g.QDRAIN > 0 ==> g.FLUSS0 > 0
 //@   ensures[C01] draininside: g.QDRAIN >= 0 && (g.QDRAIN == 0 || (1 <= g.DRAIDEP && g.DRAIDEP <= g.N))
 //@   ensures[C01] startcopy: forall(k, 0, g.N, g.WG[0][k] == start(k))
 //@   define lowb(k) = WATER[1][k] >= min(WATER[0][k], dry(k))
@@ -550,3 +551,124 @@ package hermes
 //@ loop nmove#5
 //@   invariant range: 0 <= \i && \i <= g.N
 //@   invariant fin: forall(k, 0, \i, g.C1[k] == max(0.0, pre(g.C1[k]) + g.DN[k]*wdt/2)) && forall(k, \i, 21, g.C1[k] == pre(g.C1[k]))
+
+// ---------------------------------------------------------------------------
+// C02 / C07  mineralisation of one day: what leaves the organic pools is what the source term and the counters gain
+// n2o(z): nitrification N2O loss of layer z (defined by the source term identity).
+//@ func mineral
+//@   serves C02, C07
+//@   define num() = tdiv(g.IZM, g.DZ.Index)
+//@   define dnaos(z) = old(g.NAOS[z]) - g.NAOS[z]
+//@   define dnfos(z) = old(g.NFOS[z]) - g.NFOS[z]
+//@   define n2o(z) = dnaos(z) + dnfos(z) + l.DUMS[z] - g.DN[z]
+//@   requires depth: g.DZ.Index == 10 && 10 <= g.IZM && g.IZM <= 40
+//@   requires[C07] soil: g.WMIN[0] < g.WRED && g.WRED <= g.W[0] && forall(k, 0, 4, 0 < g.WMIN[k] && g.WMIN[k] < g.WNOR[k] && g.WNOR[k] <= g.W[k] && g.W[k] <= g.PORGES[k] && g.WNOR[k] < g.PORGES[k])
+//@   requires[C07] temp: forall(k, 0, 5, g.TD[k] <= 45)
+//@   requires[C07] pools: forall(k, 0, 4, g.NAOS[k] >= 0 && g.NFOS[k] >= 0)
+//@   requires[C07] fert: g.UMS <= g.DSUMM && g.NH4UMS <= g.NH4Sum
+//@   ensures[C02,C07] slow: forall(z, 0, num(), g.NAOS[z] + g.MINAOS[z] == old(g.NAOS[z]) + old(g.MINAOS[z]))
+//@   ensures[C02,C07] fast: forall(z, 0, num(), g.NFOS[z] + g.MINFOS[z] == old(g.NFOS[z]) + old(g.MINFOS[z]))
+//@   ensures[C02] dissolved: g.UMS == old(g.UMS) + sum(z, 0, num(), 4, l.DUMS[z])
+//@   ensures[C02] n2osum: g.N2onitsum == old(g.N2onitsum) + sum(z, 0, num(), 4, n2o(z))
+//@   ensures[C02] deeper: forall(z, 1, num(), l.DUMS[z] == 0)
+//@   ensures[C07] poolsign: forall(z, 0, num(), g.NAOS[z] >= 0 && g.NFOS[z] >= 0 && g.NAOS[z] <= old(g.NAOS[z]) && g.NFOS[z] <= old(g.NFOS[z]))
+//@   ensures[C07] fertcap: g.UMS <= g.DSUMM && g.NH4UMS <= g.NH4Sum && g.UMS >= old(g.UMS)
+//@   ensures frame: forall(z, num(), 21, g.NAOS[z] == old(g.NAOS[z]) && g.NFOS[z] == old(g.NFOS[z])) && unchanged(g.DSUMM, g.NH4Sum, g.C1)
+//@ loop mineral#1
+//@   invariant range: 1 <= \i && \i <= num+1 && num == num()
+//@   invariant[C02,C07] slow: forall(z, 0, \i-1, g.NAOS[z] + g.MINAOS[z] == old(g.NAOS[z]) + old(g.MINAOS[z]))
+//@   invariant[C02,C07] fast: forall(z, 0, \i-1, g.NFOS[z] + g.MINFOS[z] == old(g.NFOS[z]) + old(g.MINFOS[z]))
+//@   invariant rest: forall(z, \i-1, 21, g.NAOS[z] == old(g.NAOS[z]) && g.NFOS[z] == old(g.NFOS[z])) && forall(z, \i-1, 4, g.MINAOS[z] == old(g.MINAOS[z]) && g.MINFOS[z] == old(g.MINFOS[z]))
+//@   invariant[C02] dissolved: g.UMS == old(g.UMS) + sum(z, 0, \i-1, 4, l.DUMS[z])
+//@   invariant[C02] n2osum: g.N2onitsum == old(g.N2onitsum) + sum(z, 0, \i-1, 4, n2o(z))
+//@   invariant[C02] deeper: forall(z, 1, \i-1, l.DUMS[z] == 0)
+//@   invariant[C07] poolsign: forall(z, 0, \i-1, g.NAOS[z] >= 0 && g.NFOS[z] >= 0 && g.NAOS[z] <= old(g.NAOS[z]) && g.NFOS[z] <= old(g.NFOS[z]))
+//@   invariant[C07] fertcap: g.UMS <= g.DSUMM && g.NH4UMS <= g.NH4Sum && g.UMS >= old(g.UMS)
+
+// ---------------------------------------------------------------------------
+// C02 / C07  denitrification: what the top layers lose is what the cumulative counter gains (the clamp never engages)
+//@ func Denitr
+//@   serves C02, C07
+//@   requires nitrate: g.C1[0] >= 0 && g.C1[1] >= 0 && g.C1[2] >= 0
+//@   requires water: g.WG[1][0] >= 0 && g.WG[1][1] >= 0 && g.WG[1][2] >= 0
+//@   requires pores: g.PORGES[0] + g.PORGES[1] + g.PORGES[2] > 0
+//@   ensures[C02] balance: old(g.C1[0]) + old(g.C1[1]) + old(g.C1[2]) - (g.C1[0] + g.C1[1] + g.C1[2]) == g.CUMDENIT - old(g.CUMDENIT)
+//@   ensures[C02,C07] loss: g.CUMDENIT >= old(g.CUMDENIT)
+//@   ensures[C07] nonneg: g.C1[0] >= 0 && g.C1[1] >= 0 && g.C1[2] >= 0
+//@   ensures frame: forall(k, 3, 21, g.C1[k] == old(g.C1[k]))
+//@   after stmt "layerFraction := []float64{": assert[C02] fractions: layerFraction[0] + layerFraction[1] + layerFraction[2] == 1 && 0 <= layerFraction[0] && 0 <= layerFraction[1] && 0 <= layerFraction[2]
+//@   after stmt "michment := ": assert[C02,C07] michaelis: 0 <= michment && michment <= 1000*nitratOb30
+//@   after stmt "Ftemp := ": assert[C02,C07] factors: 0 <= Ftheta && Ftheta <= 1 && 0 <= Ftemp && Ftemp <= 1
+//@   after stmt "DENIT = DENIT / 1000": assert[C02,C07] bounded: 0 <= DENIT && DENIT <= nitratOb30
+//@ loop Denitr#1
+//@   unroll 3
+
+//@ func Denitmo
+//@   serves C02, C07
+//@   requires nitrate: forall(k, 0, 9, g.C1[k] >= 0)
+//@   requires water: forall(k, 0, 9, g.WG[1][k] >= 0)
+//@   requires pores: g.PORGES[0] + g.PORGES[1] + g.PORGES[2] > 0 && g.PORGES[3] + g.PORGES[4] + g.PORGES[5] > 0 && g.PORGES[6] + g.PORGES[7] + g.PORGES[8] > 0
+//@   requires day: 0 <= g.TAG.Index && g.TAG.Index < 366
+//@   ensures[C02] balance: sum(k, 0, 9, 9, old(g.C1[k])) - sum(k, 0, 9, 9, g.C1[k]) == g.CUMDENIT - old(g.CUMDENIT)
+//@   ensures[C02,C07] loss: g.CUMDENIT >= old(g.CUMDENIT)
+//@   ensures[C07] nonneg: forall(k, 0, 9, g.C1[k] >= 0)
+//@   ensures frame: forall(k, 9, 21, g.C1[k] == old(g.C1[k]))
+//@   before stmt "tempOb30 := g.TEMP[g.TAG.Index]": assert[C02] fractions: (nitratOb30 > 0 ==> layerFraction30[0] + layerFraction30[1] + layerFraction30[2] == 1) && (nitratOb60 > 0 ==> layerFraction60[0] + layerFraction60[1] + layerFraction60[2] == 1) && (nitratOb90 > 0 ==> layerFraction90[0] + layerFraction90[1] + layerFraction90[2] == 1)
+//@   before stmt "tempOb30 := g.TEMP[g.TAG.Index]": assert[C02] shares: layerFraction30[0]*nitratOb30 == g.C1[0] && layerFraction30[1]*nitratOb30 == g.C1[1] && layerFraction30[2]*nitratOb30 == g.C1[2] && layerFraction60[0]*nitratOb60 == g.C1[3] && layerFraction60[1]*nitratOb60 == g.C1[4] && layerFraction60[2]*nitratOb60 == g.C1[5] && layerFraction90[0]*nitratOb90 == g.C1[6] && layerFraction90[1]*nitratOb90 == g.C1[7] && layerFraction90[2]*nitratOb90 == g.C1[8]
+//@   before stmt "calcDenitLayer(&g.C1[0]": assert[C02] noclamp30: Denit1*layerFraction30[0] <= g.C1[0] && Denit1*layerFraction30[1] <= g.C1[1] && Denit1*layerFraction30[2] <= g.C1[2]
+//@   before stmt "calcDenitLayer(&g.C1[0]": assert[C02] noclamp60: Denit2*layerFraction60[0] <= g.C1[3] && Denit2*layerFraction60[1] <= g.C1[4] && Denit2*layerFraction60[2] <= g.C1[5]
+//@   before stmt "calcDenitLayer(&g.C1[0]": assert[C02] noclamp90: Denit3*layerFraction90[0] <= g.C1[6] && Denit3*layerFraction90[1] <= g.C1[7] && Denit3*layerFraction90[2] <= g.C1[8]
+//@   before stmt "calcDenitLayer(&g.C1[0]": assert[C02] totals: Denit1*layerFraction30[0] + Denit1*layerFraction30[1] + Denit1*layerFraction30[2] == Denit1 && Denit2*layerFraction60[0] + Denit2*layerFraction60[1] + Denit2*layerFraction60[2] == Denit2 && Denit3*layerFraction90[0] + Denit3*layerFraction90[1] + Denit3*layerFraction90[2] == Denit3
+//@   before stmt "calcDenitLayer(&g.C1[0]": assert[C02] signs: forall(k, 0, 3, layerFraction30[k] >= 0 && layerFraction60[k] >= 0 && layerFraction90[k] >= 0)
+//@   after stmt "michment1 := ": assert[C02,C07] m1: 0 <= michment1 && michment1 <= 1000*nitratOb30
+//@   after stmt "michment2 := ": assert[C02,C07] m2: 0 <= michment2 && michment2 <= 1000*nitratOb60
+//@   after stmt "michment3 := ": assert[C02,C07] m3: 0 <= michment3 && michment3 <= 1000*nitratOb90
+//@   after stmt "Ftemp1 := ": assert[C02,C07] f1: 0 <= Ftheta1 && Ftheta1 <= 1 && 0 <= Ftemp1 && Ftemp1 <= 1
+//@   after stmt "Ftemp2 := ": assert[C02,C07] f2: 0 <= Ftheta2 && Ftheta2 <= 1 && 0 <= Ftemp2 && Ftemp2 <= 1
+//@   after stmt "Ftemp3 := ": assert[C02,C07] f3: 0 <= Ftheta3 && Ftheta3 <= 1 && 0 <= Ftemp3 && Ftemp3 <= 1
+//@   before stmt "MaxN2O := 0.63": assert[C02,C07] bounded: 0 <= Denit1 && Denit1 <= max(0.0, nitratOb30) && 0 <= Denit2 && Denit2 <= max(0.0, nitratOb60) && 0 <= Denit3 && Denit3 <= max(0.0, nitratOb90)
+
+// ---------------------------------------------------------------------------
+// C02 / C10  day loop of Run: irrigation water and its N enter the top layer exactly when the event is due;
+// atmospheric deposition adds DEPOS/365 per day.
+//@ region HermesSession.Run$1#irrigation from "if ZEIT == g.ZTBR[g.NBR-1] {" to "if ZEIT == g.ZTBR[g.NBR-1] {"
+//@   serves C02, C10
+//@   define due() = ZEIT == old(g.ZTBR[g.NBR-1])
+//@   define nload() = old(g.BRKZ[g.NBR-1]) * old(g.BREG[g.NBR-1]) * 0.01
+//@   requires cursor: 1 <= g.NBR && g.NBR <= 299
+//@   requires day: 0 <= g.TAG.Index && g.TAG.Index < 366
+//@   ensures[C10] applied: due() ==> g.REGEN[g.TAG.Index] == old(g.REGEN[g.TAG.Index]) + old(g.BREG[g.NBR-1])/10 && g.NBR == old(g.NBR) + 1 && g.EffectiveIRRIG == old(g.BREG[g.NBR-1])/10
+//@   ensures[C10] notdue: !due() ==> g.REGEN == old(g.REGEN) && g.NBR == old(g.NBR) && g.C1 == old(g.C1)
+//@   ensures[C02] nitrogen: due() ==> g.C1[0] == old(g.C1[0]) + max(0.0, nload()) && forall(k, 1, 21, g.C1[k] == old(g.C1[k]))
+//@   ensures[C10] schedule: g.ZTBR == old(g.ZTBR) && g.BREG == old(g.BREG)
+//@   ensures[C10] otherdays: forall(d, 0, 368, d != g.TAG.Index ==> g.REGEN[d] == old(g.REGEN[d]))
+
+//@ region HermesSession.Run$1#deposition from "g.C1[0] = g.C1[0] + g.DEPOS/365*g.DT.Num" to "if g.C1[0] < 0 {"
+//@   serves C02, C07
+//@   requires units: g.DT.Num == 1
+//@   ensures[C02] deposited: g.C1[0] == max(0.0, old(g.C1[0]) + g.DEPOS/365) && forall(k, 1, 21, g.C1[k] == old(g.C1[k]))
+//@   ensures[C02] noloss: g.C1[0] >= old(g.C1[0]) + g.DEPOS/365
+//@   ensures[C07] nonneg: g.C1[0] >= 0
+
+// Telescoping for nitrogen: the per-layer statements of nmove (post:noloss, post:konv, post:disp) sum to the profile law of
+// the statement: transport only moves N between layers; what leaves is leaching through the bottom (100*Fc[n]) and the drain
+// load; the clamp can only add. J[k] is the dispersive flux into layer k from above (J[0] = 0, J[n] = 0), Fc[z] the convective
+// flux through the lower boundary of layer z (Fc[0] = 0: water entering through the surface carries no N).
+//@ lemma C02-telescoping
+//@   serves C02
+//@   var n int
+//@   var dd int
+//@   var C1n []real
+//@   var C1a []real
+//@   var DNw []real
+//@   var DISP []real
+//@   var KONV []real
+//@   var Fc []real
+//@   var J []real
+//@   var drain real
+//@   assume 2 <= n && n <= 20
+//@   assume J[0] == 0 && J[n] == 0 && Fc[0] == 0
+//@   assume forall(k, 0, n, C1n[k] >= C1a[k] + DNw[k] + (DISP[k] - KONV[k])*1000)
+//@   assume forall(k, 0, n, DISP[k] == J[k] - J[k+1])
+//@   assume forall(z, 1, n+1, KONV[z-1]*10 == Fc[z] - Fc[z-1] + ite(z == dd, drain, 0.0))
+//@   prove profile: sum(k, 0, n, 21, C1n[k]) >= sum(k, 0, n, 21, C1a[k]) + sum(k, 0, n, 21, DNw[k]) - 100*Fc[n] - 100*ite(1 <= dd && dd <= n, drain, 0.0)
